@@ -7,6 +7,8 @@ from ..runner import Outcome, digest
 from ..gen_scopes import structure
 from ..patterns import tag_overtaken, OVERTAKEN_KEY
 
+from ..faults import iter_actors
+
 ID = "C07"
 LEVEL = "exploration"
 RULE = ("seeded programs with one *subject* `until(n)` block (n in: delay, time ==/>=/< with "
@@ -111,6 +113,7 @@ class Gen:
         self.resources = {}
         self.setters = []
         self.tasks = []
+        self.hosts = []          # started first: their children exist before anybody looks for them
 
     def fresh(self, prefix):
         self.n += 1
@@ -156,6 +159,18 @@ class Gen:
                     "r": rng.randint(1, 3)}
         if r < 0.92:
             name = self.fresh("d")
+            if rng.random() < 0.3:
+                # a task that does not end by itself: it is closed forcefully when the until-block
+                # it is a child of is cut off (a task is done however it ended)
+                kid = {"name": name, "ops": [rng.choice([{"op": "eternity"},
+                                                         {"op": "sleep", "d": 64}])]}
+                if rng.random() < 0.4:
+                    kid["volatile"] = True
+                self.hosts.append({"name": "h" + name, "ops": [{
+                    "op": "scope", "label": self.fresh("H"), "children": [kid],
+                    "until": {"k": "delay", "d": rng.choice(self.delays)},
+                    "body": [{"op": "eternity"}]}]})
+                return {"k": "done", "task": name}
             ops = [{"op": "sleep", "d": rng.choice(self.delays)} for _ in range(rng.randint(0, 2))]
             self.tasks.append({"name": name, "ops": ops})
             return {"k": "done", "task": name}
@@ -272,7 +287,7 @@ class Gen:
         actors = [{"name": "u", "ops": pre + [block] + post}]
         actors += self.tasks + self.setters
         rng.shuffle(actors)
-        return {"resources": self.resources, "actors": actors}
+        return {"resources": self.resources, "actors": self.hosts + actors}
 
 
 def generate(rng, tier):
@@ -376,7 +391,7 @@ def trigger_time(expr, rec, twin, entry_pos, entry_time, resources):
                     return ev[2]
         return INF
     if kind == "done":
-        if not any(a["name"] == expr["task"] for a in rec.case["scenario"]["actors"]):
+        if not any(a["name"] == expr["task"] for a in iter_actors(rec.case["scenario"])):
             return INF
         for ev in twin.trace:
             if ev[3] == expr["task"] and ev[4] in ("end", "exc"):
